@@ -4,6 +4,7 @@ package c01
 
 import (
 	"fmt"
+	"os"
 	"sort"
 	"testing"
 
@@ -162,6 +163,7 @@ func TestGen(t *testing.T) {
 	c.Extra["features.JwksFetchMode!=Istiod"] = jwks
 	id := 0
 	r := vlib.NewRand(vlib.Seed() ^ 0xc01)
+	n14 := 1
 
 	run := func(evs []event, forced, wp bool, p proxyIn, useCopy bool, tags ...string) {
 		id++
@@ -202,7 +204,11 @@ func TestGen(t *testing.T) {
 	}
 
 	// 1. exhaustive single-kind requests
-	for _, k := range allKinds() {
+	ak := allKinds()
+	if os.Getenv("VERIF_C01H_ONLY") != "" { // development aid: only the (H) part
+		ak, n14 = nil, 0
+	}
+	for _, k := range ak {
 		nss := []int{1}
 		if k == kind.PeerAuthentication {
 			nss = []int{0, 1, 2}
@@ -232,7 +238,7 @@ func TestGen(t *testing.T) {
 		}
 	}
 	// 2. random batches
-	n := vlib.Scale(2500, 40000)
+	n := vlib.Scale(2500, 40000) * n14
 	for i := 0; i < n; i++ {
 		ne := 1 + r.Intn(3)
 		var evs []event
@@ -289,7 +295,7 @@ func TestGen(t *testing.T) {
 		}
 	}
 	// 4. DefaultProxyNeedsPush
-	np := vlib.Scale(1500, 20000)
+	np := vlib.Scale(1500, 20000) * n14
 	for i := 0; i < np; i++ {
 		id++
 		if !c.Wanted(id) {
@@ -298,6 +304,8 @@ func TestGen(t *testing.T) {
 		}
 		genProxyNeeds(c, r.Sub(), id, scoped, jwks)
 	}
+	// 5. (H) validation against the real generators + end-to-end convergence (c01h_test.go)
+	genH(t, c, &id)
 	if err := c.Flush(); err != nil {
 		t.Fatal(err)
 	}
